@@ -18,8 +18,11 @@ from vk import core, scp, stubs
 
 IVRLE = scp.IVRLE
 FILM = "1.2.840.10008.5.1.1.1"
-FIND_ALPHA = ["pend", "pend_undec", "pend_noid", "success", "warning", "failure", "cancel", "nostatus", "wrongtype", "timeout"]
-GM_ALPHA = ["pend", "success", "warning_id", "failure_id", "failure_undec", "cancel", "nostatus", "wrongtype", "timeout", "store_ok", "store_badcx"]
+FIND_ALPHA = ["pend", "pend_undec", "pend_lazy", "pend_noid", "success", "warning", "failure", "cancel", "nostatus", "wrongtype", "timeout"]
+GM_ALPHA = ["pend", "success", "warning_id", "failure_id", "failure_undec", "failure_lazy", "cancel", "nostatus", "wrongtype", "timeout", "store_ok", "store_badcx"]
+# an identifier that is well formed as a byte stream but holds an element whose value cannot be converted
+# (Rows, VR US, with a 3-byte value): pydicom only fails when the element is read
+LAZY = __import__("struct").pack("<HHL", 0x0008, 0x0058, 8) + b"1.2.3.1\x00" + __import__("struct").pack("<HHL", 0x0028, 0x0010, 3) + b"\x01\x02\x03"
 
 
 class SpyLock:
@@ -71,7 +74,7 @@ def _rsp(op, name):
         return (r._context_id, r)
     r = cls()
     r.MessageIDBeingRespondedTo = 1
-    st = {"pend": 0xFF00, "pend_undec": 0xFF00, "pend_noid": 0xFF00, "success": 0x0000, "warning": 0xB001 if op == "find" else 0xB000, "warning_id": 0xB000, "failure": 0xA900, "failure_id": 0xA702, "failure_undec": 0xA702, "cancel": 0xFE00, "nostatus": None}[name]
+    st = {"pend": 0xFF00, "pend_undec": 0xFF00, "pend_lazy": 0xFF00, "pend_noid": 0xFF00, "success": 0x0000, "warning": 0xB001 if op == "find" else 0xB000, "warning_id": 0xB000, "failure": 0xA900, "failure_id": 0xA702, "failure_undec": 0xA702, "failure_lazy": 0xA702, "cancel": 0xFE00, "nostatus": None}[name]
     if st is not None:
         r.Status = st
     if name == "pend" and op == "find":
@@ -82,6 +85,8 @@ def _rsp(op, name):
         r.Identifier = BytesIO(failed)
     if name == "failure_undec":
         r.Identifier = BytesIO(b"\xff" * 8)
+    if name in ("failure_lazy", "pend_lazy"):
+        r.Identifier = BytesIO(LAZY)
     if op != "find" and name == "pend":
         r.NumberOfRemainingSuboperations = 1
         r.NumberOfCompletedSuboperations = 0
@@ -116,13 +121,13 @@ def reference(op, seq):
         if name == "pend":
             out.append((0xFF00, "ds" if op == "find" else "none"))
             continue
-        if name == "pend_undec":
+        if name in ("pend_undec", "pend_lazy"):
             out.append((0xFF00, "none"))
             continue
         if name == "pend_noid":
             out.append((0xFF00, "any"))
             continue
-        st = {"success": 0x0000, "warning": 0xB001 if op == "find" else 0xB000, "warning_id": 0xB000, "failure": 0xA900, "failure_id": 0xA702, "failure_undec": 0xA702, "cancel": 0xFE00}[name]
+        st = {"success": 0x0000, "warning": 0xB001 if op == "find" else 0xB000, "warning_id": 0xB000, "failure": 0xA900, "failure_id": 0xA702, "failure_undec": 0xA702, "failure_lazy": 0xA702, "cancel": 0xFE00}[name]
         out.append((st, "failed" if name in ("warning_id", "failure_id") else "none"))
         break
     else:
@@ -175,7 +180,7 @@ def eval_seq(op, seq):
     cmp_got = [(a, b if w[1] != "any" else "any") for (a, b), w in zip(got, want + [(None, "x")] * len(got))]
     if cmp_got != want or len(got) != len(want):
         first = next((i for i, (x, y) in enumerate(zip(cmp_got, want)) if x != y), min(len(got), len(want)))
-        culprit = next((x for x in ("pend_noid", "pend_undec", "failure_undec") if x in seq), None) or (seq[min(first, len(seq) - 1)] if seq else "empty")
+        culprit = next((x for x in ("pend_noid", "pend_undec", "pend_lazy", "failure_undec", "failure_lazy") if x in seq), None) or (seq[min(first, len(seq) - 1)] if seq else "empty")
         bad.append((f"yields:{culprit}", f"{op} {seq}: yielded {got}, expected {want}"))
     if want_abort and not aborts:
         bad.append(("no-abort", f"{op} {seq}: association not aborted after timeout / invalid response"))
@@ -249,7 +254,7 @@ def gen_cases(quick):
         for n in range(0, L + 1):
             for seq in itertools.product(alpha, repeat=n):
                 # nothing is consumed after the first terminal item: skip redundant tails
-                term = [i for i, x in enumerate(seq) if x in ("success", "warning_id", "failure", "failure_id", "failure_undec", "cancel", "nostatus", "wrongtype", "timeout") or (x == "warning" and True)]
+                term = [i for i, x in enumerate(seq) if x in ("success", "warning_id", "failure", "failure_id", "failure_undec", "failure_lazy", "cancel", "nostatus", "wrongtype", "timeout") or (x == "warning" and True)]
                 if term and term[0] < n - 1:
                     continue
                 yield op, seq
